@@ -1207,7 +1207,7 @@ def run_model_safe(env, name, impl_recs, order, chunk=200, timeout=None):
 
 def stream_programs(env, res, only=None, n_override=None, fixed=True):
     if only is None and n_override is None and env.tier != "quick":
-        return batched(env, res, "programs", stream_programs, 20000, 2000)
+        return batched(env, res, "programs_stream", stream_programs, 20000, 2000)
     r = env.rng
     quick = env.tier == "quick"
     cases = []
@@ -1342,7 +1342,7 @@ def stream_programs(env, res, only=None, n_override=None, fixed=True):
                 res["failures"].append({"key": "documented-output:" + cid, "stream": "programs", "case": src,
                                         "observed": shown, "expected": want})
     res["distinct_nontrivial"] += len(nontrivial)
-    merge_extra(res, "programs", dict(st, cases=len(cases), nontrivial=len(nontrivial),
+    merge_extra(res, "programs_stream", dict(st, cases=len(cases), nontrivial=len(nontrivial),
                                       docs_snippets_rejected=doc_rejected, docs_fragments_completed=len(completed)))
     if cases:
         res["samples"].append({"stream": "programs", "case": cases[0][1][:400], "impl": recs.get(cases[0][0], {}).get("runs", {}).get("nn")})
